@@ -504,8 +504,12 @@ class Interpreter:
             # do not conflict. Two transitions conflict if one of them leaves the parallel state
             for t1, t2 in combinations(transitions, 2):
                 # Check (1)
-                lca = cast(str, self._statechart.least_common_ancestor(t1.source, t2.source))
-                lca_state = self._statechart.state_for(lca)
+                if t1.source == t2.source:
+                    # Two transitions of the same state are never in separate regions
+                    lca_state = None
+                else:
+                    lca = cast(str, self._statechart.least_common_ancestor(t1.source, t2.source))
+                    lca_state = self._statechart.state_for(lca)
 
                 # Their LCA must be an orthogonal state!
                 if not isinstance(lca_state, OrthogonalState):
